@@ -215,7 +215,11 @@ func (k *Check) Finish(verifDir, tier string, seed int, wall float64, known []Kn
 	distinct := map[string]bool{}
 	var samples []any
 	sort.SliceStable(k.Obls, func(i, j int) bool { return k.Obls[i].st > k.Obls[j].st })
+	trace := os.Getenv("DVCHECK_TRACE") != ""
 	for _, o := range k.Obls {
+		if trace {
+			fmt.Printf("TRACE %s %s [%s] %s | %s\n", k.ID, o.Status, o.Key(), o.Desc, o.Why)
+		}
 		sites += o.Sites
 		if o.Sites > 0 {
 			distinct[o.Key()] = true
